@@ -234,6 +234,25 @@ def py_oracle(recs, d, tab_sizes=None):
                 sz = size(k)
                 if a is None or b is None or sz is None or not (a <= b < sz):
                     ok = False
+        if ok:
+            def spans(side):
+                out = []
+                for nd in l[side]:
+                    (k, v), = nd.items()
+                    out.append((k,) + ((py_nat(v[0]), py_nat(v[1])) if isinstance(v, list) else (py_nat(v), py_nat(v))))
+                return out
+            sr, ds, lt = spans('src_nodes'), spans('dest_nodes'), l['link_type']
+            one = lambda x: x[1] == x[2]
+            if lt == 'CopyLink':
+                ok = len(sr) == 1 and len(ds) == 1 and sr[0][2] - sr[0][1] == ds[0][2] - ds[0][1]
+            elif lt == 'One2ManyLink':
+                ok = len(sr) == 1 and len(ds) == 1 and one(sr[0])
+            elif lt == 'Many2OneLink':
+                ok = len(sr) == 1 and len(ds) == 1 and one(ds[0])
+            elif lt == 'Range2Slk<...>':
+                ok = len(sr) == 1 and len(ds) == 2 and one(sr[0]) and one(ds[0]) and one(ds[1]) and ds[1][0] == 'dest_vars()'
+            else:
+                ok = len(sr) >= 1 and len(ds) >= 1
         if not ok:
             bad.append('bad-link')
     for i, v in enumerate(d['vars']):
@@ -833,8 +852,7 @@ def exporter_ops(c, recs):
     ops = ['EX reset', 'EX types ' + ' '.join(hx(t) for t, _ in groups)]
     ops += ['EX grp %s %d' % (hx(t), g) for t, g in groups]
     d = c.d
-    for node, n in (('src_vars()', d['nlVars']), ('src_cons()', d['nlAlg'] + d['nlLog']), ('src_objs()', d['nlObjs']), ('dest_objs()', d['nObjs'])):
-        ops.append('EX static %s %d' % (hx(node), n))
+    ops.append('EX addnodes ' + ' '.join(hx(n) for n in ('src_vars()', 'src_cons()', 'src_objs()', 'dest_objs()')))
     for r in recs:
         if 'CON_TYPE' in r and 'final' in r:
             ops.append('EX name %s %d %s' % (hx(r['CON_TYPE']), py_nat(r['index']), hx(r.get('name', ''))))
@@ -842,7 +860,19 @@ def exporter_ops(c, recs):
     if upd is None:
         return None
     cur, exp, late_links, nlinks = {}, [], [], 0
+    nl_vars_added = False
     for r in recs[:upd]:
+        if not nl_vars_added and 'VAR_index' not in r and 'COMMENT' not in r:
+            # ConvertVars: all NL variables were just added -> src_vars().Add(n)
+            n_nl = sum(1 for x in recs[:upd] if 'VAR_index' in x and py_nat(x['is_from_nl']) == 1)
+            if n_nl:
+                ops.append('EX a %s %d' % (hx('src_vars()'), n_nl))
+            nl_vars_added = True
+        if 'NL_CON_TYPE' in r:
+            ops.append('EX a %s 1' % hx('src_cons()'))          # ConvertAlgCon / ConvertLogicalCon: src_cons().Add()
+        elif 'NL_OBJECTIVE_index' in r:
+            ops.append('EX a %s 1' % hx('src_objs()'))          # Convert(objective): src_objs().Add(), dest_objs().Add()
+            ops.append('EX a %s 1' % hx('dest_objs()'))
         if 'VAR_index' in r:
             i, b, inf = py_nat(r['VAR_index']), py_nat(r['is_from_nl']), _vinfo(r)
             cur[i] = inf
@@ -854,6 +884,10 @@ def exporter_ops(c, recs):
         elif 'link_index' in r:
             ops.append('EX l %s %d %s %s' % (hx(r['link_type']), py_nat(r['link_index'][1]), refs(r['src_nodes']), refs(r['dest_nodes'])))
             nlinks += 1
+    if not nl_vars_added:
+        n_nl = sum(1 for x in recs[:upd] if 'VAR_index' in x and py_nat(x['is_from_nl']) == 1)
+        if n_nl:
+            ops.append('EX a %s %d' % (hx('src_vars()'), n_nl))
     tail = recs[upd:]
     for r in tail:
         if 'VAR_index' in r:
@@ -1023,7 +1057,7 @@ def stage_config(ck, exe, tab, hist):
 
 
 # ------------------------------------------------------------------ entry
-N_THEOREMS = 39
+N_THEOREMS = 40
 
 
 def run(ck):
